@@ -23,6 +23,20 @@ func checkC16(p *Prog, r *Report) {
 	c16TableRow(p, r)
 	c16Skip(p, r)
 	c16HarvestSites(p, r)
+	c16Switches(p, r)
+}
+
+// C16.R9 — "with fixed dates sowing and harvest happen on the dates of the
+// rotation file; automatic management only when switched on": each of the four
+// management switches of the run is the configured switch of that name and
+// nothing else (a switch that is also turned on by another one moves harvests
+// off their fixed dates for a configuration that never asked for it).
+func c16Switches(p *Prog, r *Report) {
+	r.Rule("C16.R9", "the management switches are the configured ones: automatic sowing/harvest windows, automatic fertilisation, automatic irrigation and automatic harvest are each set once, unconditionally, from the configuration key of the same meaning and from nothing else", 4)
+	for _, sw := range [][2]string{{"AUTOMAN", "AutoSowingHarvest"}, {"AUTOFERT", "AutoFertilization"}, {"AUTOIRRI", "AutoIrrigation"}, {"AUTOHAR", "AutoHarvest"}} {
+		ok, pos, det := configFeeds(p, sw[0], sw[1], 1)
+		r.Ob("switch:"+sw[0], pos, ok, fmt.Sprintf("%s ← %s: %s", sw[0], sw[1], det))
+	}
 }
 
 func nonLoopGuardKeys(e *Event) []string {
